@@ -771,6 +771,8 @@ def c04(report, rng, tier, findings):
         cfg = gen.Cfg(n_vars=(nv, nv), n_objs=(2, 5 if nv == 1 else 3), depth=2, empty_domain=0.0,
                       dup_domain=0.35, select_all=1.0)
         base = gen.gen_case(rng, cfg, f'h{i}')
+        # every variable ranges over the root class: no (type-filtered) empty domain (that is C02-F1's territory)
+        base['vars'] = [(vid, 'A', raw) for vid, _, raw in base['vars']]
         ids = [v[0] for v in base['vars']]
         pool = []
         for _ in range(rng.randint(1, 3)):
